@@ -33,7 +33,7 @@ RULE = ('case = one instance of one law. non-trivial = involves a non-identity o
 ASSUMPTIONS = ['laws as listed in DESIGN.md §2 C18']
 EXHAUSTIVE_NOTE = 'orientation laws over all 4^3 triples; position/transform laws over all coordinates in [-3,3] (pairs) / [-2,2] (triples of transforms with all orientations)'
 REQUIRED = {'quick': {'law.orientation_group': 64, 'law.linear': 1000, 'law.isometry': 500, 'law.transform_assoc': 1000,
-                      'law.transform_inverse': 200, 'law.transform_action': 1000, 'law.area_image': 500,
+                      'law.transform_inverse': 200, 'law.transform_action': 1000, 'law.area_image': 500, 'law.area_spanned': 1000,
                       'law.grid_rotation': 200, 'law.next_position': 400, 'law.bigint': 500, 'law.mutation_history': 1000, 'law.inplace_operators': 500}}
 O = [Orientation.F, Orientation.R, Orientation.B, Orientation.L]
 
@@ -43,6 +43,13 @@ def fail(ctx, law, msg, payload):
 
 
 def law(ctx, name, cond_fn, desc_fn, payload, nontrivial=True):
+    describe = desc_fn
+
+    def desc_fn():  # the description evaluates library expressions too: it may fail where the law does
+        try:
+            return describe()
+        except Exception as e:  # noqa
+            return f'(operands {payload}; describing them raised {type(e).__name__}: {e})'
     ctx.ev()
     ctx.hit('law.' + name)
     try:
@@ -108,6 +115,18 @@ def transform_laws(ctx, triples):
         A = Area((ys[0], ys[1]), (xs[0], xs[1]))
         law(ctx, 'transform_action', lambda: (t1 * t2) * A == t1 * (t2 * A),
             lambda: f'(t1*t2)*A != t1*(t2*A) for {t1},{t2},{A}', dict(pl, area=[list(A.ys), list(A.xs)]))
+        # the area spanned by scattered positions: spanning commutes with transforming (the image of the bounding area is
+        # the bounding area of the images), the spanned area contains its positions and is tight, order is irrelevant
+        P = [x, t2.position, t3.position, t2 * x]
+        law(ctx, 'area_spanned', lambda: Area.from_positions([t1 * p for p in P]) == t1 * Area.from_positions(P)
+            and all(Area.from_positions([o * p for p in P]) == o * Area.from_positions(P) for o in O)
+            and Area.from_positions(P) == Area.from_positions(P[::-1]) == Area.from_positions(sorted(P, key=lambda p: (p.x, -p.y)))
+            and all(Area.from_positions(P).contains(p) for p in P)
+            and (Area.from_positions(P).ymin, Area.from_positions(P).ymax, Area.from_positions(P).xmin, Area.from_positions(P).xmax)
+            == (min(p.y for p in P), max(p.y for p in P), min(p.x for p in P), max(p.x for p in P))
+            and Area.from_positions([x]) == Area((x.y, x.y), (x.x, x.x)),
+            lambda: f'area spanned by {P}: {Area.from_positions(P)}; spanned by the images under {t1}: '
+                    f'{Area.from_positions([t1 * p for p in P])}, image of the spanned area: {t1 * Area.from_positions(P)}', pl)
         if A.height * A.width <= 400:
             law(ctx, 'area_image', lambda: set((t1 * A).positions()) == {t1 * p for p in A.positions()}
                 and (t1 * A).height * (t1 * A).width == A.height * A.width
@@ -295,7 +314,7 @@ def replay(ctx, kind, payload):
         orientation_laws(ctx)
     elif lawname in ('linear', 'isometry'):
         position_laws(ctx, [tuple(payload['p'] + payload['q'])])
-    elif lawname in ('transform_assoc', 'transform_inverse', 'transform_action', 'area_image'):
+    elif lawname in ('transform_assoc', 'transform_inverse', 'transform_action', 'area_image', 'area_spanned'):
         ts = [Transform(Position(t[0], t[1]), Orientation[t[2]]) for t in payload['t']]
         transform_laws(ctx, [(ts[0], ts[1], ts[2], Position(*payload['x']))])
     elif lawname == 'inplace_operators':
